@@ -105,6 +105,11 @@ claim("C13", "model_checking",
       "On gamma = k ln2, zeta = j/4, u = (2r+1)/32 the Bal-Neyts acceptance function is a ratio of integers; TLC checks that it is a probability, that displacement along the force is favoured and increasingly so, mirror symmetry, that a converged coordinate keeps its zeta, that the configuration advances exactly once and only when all coordinates converged, and that every gamma has positive acceptance mass; the accept table is exported. Real ForceBias objects are stepped with forces giving exactly those gammas (temperature and delta also re-assigned on the live object) and scripted (zeta, u) rounds: converged sets per round, final zeta, gamma and the mass-scaled displacement must match the table. With the real generator and forces from 0 to 1e300 of mixed sign the bound, termination, single position update and finiteness are checked; zeta histograms are compared with the published density (chi-square, mean).",
       "Trusted: TLC; scipy quadrature for bin masses (1/gamma is irrational on the lattice). The density clause is statistical (p >= 1e-9, |z| <= 6); the lattice layer is applicable only when the draw pattern is uniform(-1,1)/random() per round.", "5 C13")
 
+claim("C14", "model_checking",
+      "TLC on the dyadic velocity-Verlet lattice (Verlet.tla: exact trajectory, exact reversibility, force-evaluation count) replayed bit for bit + numeric reversibility / order on real potentials + scripted and statistical momentum refresh + engine traces validated against QMC.tla for the kinetic energy",
+      "Verlet.tla keeps x, p as integers scaled by 2^Q for the harmonic well with dt = 2^-S, where velocity Verlet is exact; TLC checks integrate-flip-integrate-flip = identity, N+1 force evaluations, exactness of every division, and exports the end point of every case; Verlet.integrate must reproduce each end point bit for bit (IEEE doubles are exact on these dyadics) with and without constraint application. On EMT / Lennard-Jones / quartic systems reversibility (<= 1e-9) and the log-log slope of the total-energy error are measured. The momentum refresh is driven with scripted normals (p = z sqrt(m kT), oddness), with forced rescaling (target temperature, also with fixed atoms) and sampled for its first moments. HamiltonianCanonical engine traces (vetoing check_move included) are validated by TLC: the reference kinetic energy at the move's return is that of the refreshed momenta.",
+      "Trusted: TLC; exactness of IEEE arithmetic on dyadic rationals below 2^53. Bounds: S <= 3, N <= 3 (32-bit integers in TLC); the order clause and 'normal with variance m kT' are numeric/statistical (slope in [1.6, 2.6], |z| <= 6).", "5 C14")
+
 NOT_YET = "check not built yet in this round (planned in DESIGN.md section 5); will be claimed once its spec and conformance harness exist"
 
 
